@@ -34,6 +34,10 @@ static void observe(qlist_t *l, const model_t *m, const char *after) {
     errno = 0; if (l->addfirst(l, "x", 0) || errno != EINVAL) vc_viol("seq:einval", "addfirst(size 0) not refused with EINVAL");
     errno = 0; if (l->addat(l, n ? 1 : 0, NULL, 0) || errno != EINVAL) vc_viol("seq:einval", "addat(NULL) not refused with EINVAL");
     if ((int)l->size(l) != n) vc_viol("seq:size", "after %s: size() = %zu, expected %d", after, l->size(l), n);
+    /* optional out-parameters omitted: same answers */
+    { void *a = l->getfirst(l, NULL, false), *b = l->getlast(l, NULL, false), *c = l->getat(l, 0, NULL, false), *d = l->toarray(l, NULL);
+      if ((a != NULL) != (n > 0) || (b != NULL) != (n > 0) || (c != NULL) != (n > 0) || (d != NULL) != (n > 0)) vc_viol("seq:null-size-pointer", "after %s: getfirst/getlast/getat/toarray without a size pointer disagree with %d elements", after, n);
+      free(d); }
     if (l->datasize(l) != m_datasize(m)) vc_viol("seq:datasize", "after %s: datasize() = %zu, expected %zu", after, l->datasize(l), m_datasize(m));
     for (int i = -n - 2; i <= n + 2; i++) for (int nm = 0; nm < 2; nm++) {
         size_t sz = 9999; errno = 0;
